@@ -2,6 +2,7 @@ package hx
 
 import (
 	"context"
+	"errors"
 	"sort"
 	"strings"
 	"sync"
@@ -28,6 +29,23 @@ type LogDS struct {
 	// OnWrite, if set, is called (without the lock) right before the n-th atomic write is applied: the instant a
 	// crash "before write n" would happen. Monitors use it to sample what the node reports at that instant.
 	OnWrite func(n int)
+	// Fault injection (transient datastore errors: the property statements that talk about "a crash between any two
+	// durable writes" do not cover these, the ones about "every error pattern" do): the next FailPut single Puts, the
+	// next FailDelete single Deletes, the next FailCommit batch commits return ErrInjected and write NOTHING.
+	FailPut, FailDelete, FailCommit int
+}
+
+// ErrInjected is what an injected datastore fault returns.
+var ErrInjected = errors.New("verif: injected datastore error")
+
+func (s *LogDS) fail(c *int) bool {
+	s.mu.Lock()
+	defer s.mu.Unlock()
+	if *c > 0 {
+		*c--
+		return true
+	}
+	return false
 }
 
 func NewLogDS(init map[string][]byte) *LogDS {
@@ -128,6 +146,9 @@ func (s *LogDS) before() {
 }
 
 func (s *LogDS) Put(_ context.Context, k ds.Key, v []byte) error {
+	if s.fail(&s.FailPut) {
+		return ErrInjected
+	}
 	s.before()
 	s.mu.Lock()
 	defer s.mu.Unlock()
@@ -135,6 +156,9 @@ func (s *LogDS) Put(_ context.Context, k ds.Key, v []byte) error {
 	return nil
 }
 func (s *LogDS) Delete(_ context.Context, k ds.Key) error {
+	if s.fail(&s.FailDelete) {
+		return ErrInjected
+	}
 	s.before()
 	s.mu.Lock()
 	defer s.mu.Unlock()
@@ -159,6 +183,10 @@ func (b *logBatch) Delete(_ context.Context, k ds.Key) error {
 	return nil
 }
 func (b *logBatch) Commit(context.Context) error {
+	if b.s.fail(&b.s.FailCommit) {
+		b.ws = nil
+		return ErrInjected
+	}
 	b.s.before()
 	b.s.mu.Lock()
 	defer b.s.mu.Unlock()
